@@ -684,6 +684,8 @@ class Body:
             t = self.blocks[bi]["term"]
             if t["k"] != "call":
                 continue
+            if t.get("summary"):
+                continue  # synthetic element fetch of a summary splice (inline.py): visible to slices only
             if pat is not None and not re.search(pat, t.get("callee", "")):
                 continue
             if resolved is not None and not re.search(resolved, t.get("resolved_full", t.get("resolved", ""))):
